@@ -7,21 +7,6 @@
 
 pub type Mask = u32;
 
-/// Loops whose trip count depends on the *pattern* (number of patterns, of alternatives, of class ranges, of literal bytes)
-/// are unrolled by hand, so that the model checker's unwinding bound only has to cover the loops and the recursion whose
-/// trip count depends on the *input length*.  (A large global bound would be applied to the lexer's own recursion too.)
-macro_rules! unroll {
-    ($i:ident < $lim:expr, max 8, $body:block) => {{
-        unroll!(@ $i, $lim, $body, 0, 1, 2, 3, 4, 5, 6, 7);
-    }};
-    ($i:ident < $lim:expr, max 16, $body:block) => {{
-        unroll!(@ $i, $lim, $body, 0, 1, 2, 3, 4, 5, 6, 7, 8, 9, 10, 11, 12, 13, 14, 15);
-    }};
-    (@ $i:ident, $lim:expr, $body:block, $($k:expr),*) => {
-        $( { let $i: usize = $k; if $i < $lim $body } )*
-    };
-}
-
 #[derive(Clone, Copy, Debug)]
 pub enum P {
     /// exactly these bytes
@@ -46,16 +31,24 @@ pub enum P {
 fn bit(m: Mask, i: usize) -> bool { (m >> i) & 1 == 1 }
 
 fn in_class(b: u8, rs: &[(u8, u8)]) -> bool {
+    let mut i = 0;
     let mut r = false;
-    unroll!(i < rs.len(), max 8, { if rs[i].0 <= b && b <= rs[i].1 { r = true; } });
+    while i < rs.len() {
+        if rs[i].0 <= b && b <= rs[i].1 { r = true; }
+        i += 1;
+    }
     r
 }
 
 fn lit_at(inp: &[u8], s: usize, w: &[u8], k: usize) -> bool {
     // inp[s..s+k] == w[..k]
     if s + k > inp.len() { return false; }
+    let mut i = 0;
     let mut ok = true;
-    unroll!(i < k, max 8, { if inp[s + i] != w[i] { ok = false; } });
+    while i < k {
+        if inp[s + i] != w[i] { ok = false; }
+        i += 1;
+    }
     ok
 }
 
@@ -83,12 +76,14 @@ pub fn ends(p: &P, inp: &[u8], starts: Mask) -> Mask {
         }
         P::Cat(ps) => {
             let mut cur = starts;
-            unroll!(i < ps.len(), max 16, { cur = ends(&ps[i], inp, cur); });
+            let mut i = 0;
+            while i < ps.len() { cur = ends(&ps[i], inp, cur); i += 1; }
             cur
         }
         P::Alt(ps) => {
             let mut out = 0;
-            unroll!(i < ps.len(), max 16, { out |= ends(&ps[i], inp, starts); });
+            let mut i = 0;
+            while i < ps.len() { out |= ends(&ps[i], inp, starts); i += 1; }
             out
         }
         P::Star(q) => {
@@ -131,7 +126,11 @@ pub fn alive(p: &P, inp: &[u8], starts: Mask) -> Mask {
             let mut s = 0;
             while s <= n {
                 if bit(starts, s) {
-                    unroll!(k < w.len() + 1, max 16, { if lit_at(inp, s, w, k) { out |= 1 << (s + k); } });
+                    let mut k = 0;
+                    while k <= w.len() {
+                        if lit_at(inp, s, w, k) { out |= 1 << (s + k); }
+                        k += 1;
+                    }
                 }
                 s += 1;
             }
@@ -141,15 +140,18 @@ pub fn alive(p: &P, inp: &[u8], starts: Mask) -> Mask {
         P::Cat(ps) => {
             let mut cur = starts;
             let mut out = 0;
-            unroll!(i < ps.len(), max 16, {
+            let mut i = 0;
+            while i < ps.len() {
                 out |= alive(&ps[i], inp, cur);
                 cur = ends(&ps[i], inp, cur);
-            });
+                i += 1;
+            }
             out
         }
         P::Alt(ps) => {
             let mut out = 0;
-            unroll!(i < ps.len(), max 16, { out |= alive(&ps[i], inp, starts); });
+            let mut i = 0;
+            while i < ps.len() { out |= alive(&ps[i], inp, starts); i += 1; }
             out
         }
         P::Star(q) => { let s = ends(p, inp, starts); s | alive(q, inp, s) }
@@ -240,24 +242,28 @@ pub fn attempt(def: &Def, inp: &[u8], p: usize) -> (Option<(usize, usize)>, usiz
     let start: Mask = 1 << p;
     let mut e = [0 as Mask; MAX_PATS];
     let mut all: Mask = 0;
+    let mut i = 0;
     let mut viable: Mask = 0;
-    unroll!(i < def.pats.len(), max 16, {
+    while i < def.pats.len() {
         e[i] = ends(&def.pats[i].p, inp, start) & !start;
         all |= e[i];
         viable |= alive(&def.pats[i].p, inp, start);
-    });
+        i += 1;
+    }
     if all != 0 {
         let longest = highest(all, n);
         // winner: unique highest priority among the patterns matching exactly inp[p..longest]
         let mut best: usize = MAX_PATS;
         let mut best_prio: u16 = 0;
         let mut tie = false;
-        unroll!(j < def.pats.len(), max 16, {
+        let mut j = 0;
+        while j < def.pats.len() {
             if bit(e[j], longest) {
                 if best == MAX_PATS || def.pats[j].prio > best_prio { best = j; best_prio = def.pats[j].prio; tie = false; }
                 else if def.pats[j].prio == best_prio { tie = true; }
             }
-        });
+            j += 1;
+        }
         return (Some((best, longest)), 0, tie);
     }
     // error: ends immediately before the first position q >= p such that inp[p..q+1] is not a viable prefix
